@@ -53,6 +53,13 @@ fn case(ctx: &mut Ctx, parser: &liquid::Parser, kind: &str, t: Vec<Node>, data: 
 
 pub fn run(ctx: &mut Ctx) {
     let parser = build_parser(&[], Policy::Eager);
+    // a counted range is collected into a vector BEFORE limit/offset are applied: the full i64 range
+    // overflows the vector's capacity computation (an open finding, see known_findings.json); only this
+    // exact witness is run, because slightly shorter ranges try to allocate terabytes and abort
+    {
+        let t = vec![Node::For { x: "i".into(), rng: RangeE::Counted(lit_i(0), lit_i(i64::MAX)), limit: Some(lit_i(1)), offset: None, rev: false, body: vec![text("x")], els: None }];
+        case(ctx, &parser, "range-huge", t, &Object::new());
+    }
     let opts: Vec<Option<i64>> = std::iter::once(None).chain((0..=8).map(Some)).collect();
     // --- the grid ---
     for n in 0..=6usize {
@@ -97,6 +104,7 @@ pub fn run(ctx: &mut Ctx) {
                     }];
                     case(ctx, &parser, &format!("tablerow:{}:{}:{}", on(off), on(lim), on(&cols)), t, &data);
                 }
+                // (see below for ranges too long to materialise)
                 // degenerate column counts: zero is an error (never a division by zero), a negative
                 // count is an error or a table without row breaks, never a panic (judged by the model)
                 for cols in [0i64, -1, i64::MIN] {
